@@ -50,6 +50,7 @@ type chist struct {
 }
 
 type cenv struct {
+	segs  [][]int64 // offsets per segment of the prepared log
 	l     klevdb.Log
 	x     *Exec
 	clock atomic.Int64
@@ -82,6 +83,9 @@ func prepLog(dir string, rng *rand.Rand, variant int) (*cenv, absState, error) {
 		nx, _ := l.NextOffset()
 		l.Delete(map[int64]struct{}{int64(rng.Intn(int(nx))): {}})
 	}
+	if variant%2 == 0 { // a head segment with several messages that is due for rollover
+		e.publish(3+rng.Intn(2), rng)
+	}
 	if variant%4 == 3 { // cold readers
 		l.Close()
 		l, err = klevdb.Open(dir, opts)
@@ -92,6 +96,11 @@ func prepLog(dir string, rng *rand.Rand, variant int) (*cenv, absState, error) {
 	}
 	all, _, _ := scanLog(l, 32)
 	nx, _ := l.NextOffset()
+	for _, sp := range projectDir(dir, true, true).Segs {
+		if len(sp.Offs) > 0 {
+			e.segs = append(e.segs, sp.Offs)
+		}
+	}
 	e.ops = nil
 	return e, absState{Live: e.x.conv(all), Next: nx}, nil
 }
@@ -271,6 +280,33 @@ func (e *cenv) call(p int, c ccall, rng *rand.Rand) {
 	e.record(o)
 }
 
+// segDelete: offset sets shaped after the segment layout (first and last of a segment with survivors, a whole
+// segment, everything but one message): the shapes that exercise the rebase / tail-delete / emptying paths
+func (e *cenv) segDelete(rng *rand.Rand) ccall {
+	if len(e.segs) == 0 {
+		return ccall{Op: "delete", S: []int64{0}}
+	}
+	sg := e.segs[len(e.segs)-1]
+	if rng.Intn(3) == 0 {
+		sg = e.segs[rng.Intn(len(e.segs))]
+	}
+	var s []int64
+	switch rng.Intn(5) {
+	case 0, 4: // first and last
+		s = []int64{sg[0], sg[len(sg)-1]}
+	case 1: // the whole segment
+		s = append(s, sg...)
+	case 2: // all but the first
+		s = append(s, sg[1:]...)
+	default: // first only
+		s = []int64{sg[0]}
+	}
+	if len(s) == 0 {
+		s = []int64{sg[0]}
+	}
+	return ccall{Op: "delete", S: s}
+}
+
 func randCall(rng *rand.Rand, next int64) ccall {
 	off := int64(rng.Intn(int(next)+4)) - 2
 	switch r := rng.Intn(20); {
@@ -321,11 +357,16 @@ func freeRun(id int, seed int64, root string) (*chist, error) {
 			defer wg.Done()
 			for i := 0; i < M; i++ {
 				nx := init.Next + int64(i*P)
-				e.call(p, randCall(prng, nx), prng)
+				c := randCall(prng, nx)
+				if c.Op == "delete" && prng.Intn(2) == 0 {
+					c = e.segDelete(prng)
+				}
+				e.call(p, c, prng)
 			}
 		}(p)
 	}
 	wg.Wait()
+	e.cursorScan(9, rng)
 	e.l.Close()
 	return &chist{ID: id, Kind: "free", What: fmt.Sprintf("%d goroutines x %d calls", P, M), Keys: true, Times: true, Init: init, Ops: e.ops}, nil
 }
@@ -353,6 +394,24 @@ func (w *winHandler) Arrive(point string) {
 	<-w.release
 }
 
+// the windows in which another call can interleave with lock-free parts of Delete / rollover come up more often
+var windowWeights = map[string]int{"delete.found": 6, "delete.checked": 4, "delete.rewritten": 4, "delete.reader.before-swap": 2,
+	"publish.roll.opened": 2, "publish.roll.swapped": 2}
+
+func pickWindow(id int) string {
+	var ws []string
+	for _, w := range windowPoints {
+		n := windowWeights[w]
+		if n == 0 {
+			n = 1
+		}
+		for k := 0; k < n; k++ {
+			ws = append(ws, w)
+		}
+	}
+	return ws[id%len(ws)]
+}
+
 var windowPoints = []string{
 	"publish.locked", "publish.roll.synced", "publish.roll.opened", "publish.roll.swapped", "publish.roll.closed", "publish.written",
 	"writer.record", "writer.item", "writer.before-append",
@@ -369,7 +428,7 @@ func placement(id int, seed int64, root string) (*chist, error) {
 		return nil, err
 	}
 	defer os.RemoveAll(e.dir)
-	w := windowPoints[id%len(windowPoints)]
+	w := pickWindow(id)
 	var a ccall
 	switch {
 	case strings.HasPrefix(w, "publish."), strings.HasPrefix(w, "writer.record"), strings.HasPrefix(w, "writer.item"), strings.HasPrefix(w, "writer.before"):
@@ -380,6 +439,9 @@ func placement(id int, seed int64, root string) (*chist, error) {
 			s = []int64{init.Next - 1} // in the writing segment
 		}
 		a = ccall{Op: "delete", S: s}
+		if rng.Intn(4) > 0 {
+			a = e.segDelete(rng)
+		}
 	case w == "reader.gc.index-closed":
 		a = ccall{Op: "gc"}
 	default:
@@ -406,6 +468,12 @@ func placement(id int, seed int64, root string) (*chist, error) {
 	if reached {
 		for k := 1; k <= 2; k++ {
 			c := randCall(rng, init.Next+2)
+			if k == 1 && strings.HasPrefix(w, "delete.") && rng.Intn(4) > 0 {
+				c = ccall{Op: "publish", N: 1 + rng.Intn(3)} // a publish (possibly rolling over) inside the delete window
+			}
+			if c.Op == "delete" && rng.Intn(2) == 0 {
+				c = e.segDelete(rng)
+			}
 			what += fmt.Sprintf("; %s", c)
 			d := make(chan struct{})
 			crng := rand.New(rand.NewSource(seed + int64(id*7+k)))
@@ -431,10 +499,25 @@ func placement(id int, seed int64, root string) (*chist, error) {
 			return nil, fmt.Errorf("placement %d: a blocked call never returned (%s)", id, what)
 		}
 	}
-	// a final scan closes the history: everything published and not deleted must still be there
-	e.call(9, ccall{Op: "consume", Off: klevdb.OffsetOldest, Max: 64}, rng)
+	// a final cursor scan closes the history: everything published and not deleted must still be reachable
+	e.cursorScan(9, rng)
 	e.l.Close()
 	return &chist{ID: id, Kind: "placement", What: what, Keys: true, Times: true, Init: init, Ops: e.ops}, nil
+}
+
+// cursorScan: Consume from OffsetOldest feeding the returned offset back, every call recorded.
+func (e *cenv) cursorScan(p int, rng *rand.Rand) {
+	off := klevdb.OffsetOldest
+	for i := 0; i < 24; i++ {
+		e.call(p, ccall{Op: "consume", Off: off, Max: 4}, rng)
+		e.mu.Lock()
+		last := e.ops[len(e.ops)-1]
+		e.mu.Unlock()
+		if last.Err != "" || (len(last.Msgs) == 0 && last.Next == off) {
+			return
+		}
+		off = last.Next
+	}
 }
 
 // c08Worker: entry point of the (race-built) child process.
@@ -466,8 +549,8 @@ func c08Worker(args []string) int {
 			enc.Encode(&chist{ID: i, Kind: "hang", What: err.Error(), Init: absState{Live: []MM{}}, Ops: []cop{{ID: 1, Op: "hang", Inv: 1, Ret: 2, Err: "Hang", S: []int64{}, Batch: []MM{}, Assigned: []int64{}, Msgs: []MM{}}}})
 			continue
 		}
-		if len(h.Ops) > 60 {
-			h.Ops = h.Ops[:60]
+		if len(h.Ops) > 62 {
+			h.Ops = h.Ops[:62]
 		}
 		enc.Encode(h)
 	}
@@ -523,7 +606,7 @@ func runC08(r *SeqRun) {
 		r.infra("c08: race-detector build of the harness not found (%s)", race)
 		return
 	}
-	nfree, nplace := tierN(r.Tier, 500, 8000), tierN(r.Tier, 1200, 30000)
+	nfree, nplace := tierN(r.Tier, 500, 8000), tierN(r.Tier, 2400, 40000)
 	nshards := 14
 	var wg sync.WaitGroup
 	for s := 0; s < nshards; s++ {
